@@ -311,6 +311,10 @@ pub struct Cfg {
     /// clauses have been evaluated, so a run goes on past an exactness divergence (which is C02's)
     #[serde(default)]
     pub adopt_alive: bool,
+    /// with `sweep_every` > 1: between the full sweeps nothing at all is asked (not even keys()),
+    /// the model takes those steps alone
+    #[serde(default)]
+    pub blind: bool,
     /// the property this run is judged for: observational clauses other properties own are passed
     /// over instead of ending the run (none: every clause ends it)
     #[serde(default)]
